@@ -2,6 +2,7 @@
 //! generated inputs and prints one line per operation (`<op tokens> => <observed output>`),
 //! which the Lean driver `mdriver` replays on the model.
 mod clog;
+mod cloop;
 mod codec;
 mod cstate;
 mod frame;
@@ -23,6 +24,7 @@ fn main() {
         "topic" => topic::run(&opts),
         "router" => router::run(&opts),
         "clog" => clog::run(&opts),
+        "cloop" => cloop::run(&opts),
         "cstate" => cstate::run(&opts),
         "frame" => frame::run(&opts),
         "codec" => codec::run(&opts),
